@@ -29,6 +29,7 @@ use std::sync::atomic::Ordering;
 use std::sync::atomic::{AtomicBool, Ordering};
 #[cfg(sighook_verif)]
 use std::sync::Arc;
+use std::sync::PoisonError;
 #[cfg(not(sighook_verif))]
 use std::sync::{Arc, Mutex};
 
@@ -72,7 +73,12 @@ impl DeliveryState {
 
 impl Drop for DeliveryState {
     fn drop(&mut self) {
-        let lock = self.registered_signal_ids.lock().unwrap();
+        // A documented panic of `add_signal` (forbidden or out of range signal) poisons the mutex.
+        // Nothing is modified before such a panic, so the content is still good.
+        let lock = self
+            .registered_signal_ids
+            .lock()
+            .unwrap_or_else(PoisonError::into_inner);
         for id in lock.iter().filter_map(|s| *s) {
             crate::low_level::unregister(id);
         }
@@ -199,7 +205,12 @@ impl Handle {
     /// * If the relevant [`Exfiltrator`] does not support this particular signal. The default
     ///   [`SignalOnly`] one supports all signals.
     pub fn add_signal(&self, signal: c_int) -> Result<(), Error> {
-        let mut lock = self.delivery_state.registered_signal_ids.lock().unwrap();
+        // See the Drop above for why the poisoning is ignored.
+        let mut lock = self
+            .delivery_state
+            .registered_signal_ids
+            .lock()
+            .unwrap_or_else(PoisonError::into_inner);
         // Already registered, ignoring
         if lock[signal as usize].is_some() {
             return Ok(());
